@@ -778,6 +778,10 @@ def to_runmd(ctx, case, kind):
         if len(intfs) < 2:
             intfs = [i0, i0 + 5]
         own = intfs.index(i1)
+        if own == len(intfs) - 1:
+            # the real program has no [i+] ensemble for the last interface (its weight entry is the
+            # constant 0.0): give the world one more interface so that the ensemble exists
+            intfs.append(intfs[-1] + 5)
         c["ens_num"] = own
         c["minus"] = False
         c["intfs"] = intfs
@@ -1028,11 +1032,30 @@ def check_zero_swap(ctx):
     return n, bad
 
 
+def coqchk_stage(ctx):
+    """Thorough tier: independent re-check of the compiled closure of theorems/C09.vo with coqchk."""
+    with common.build_lock():
+        rc, out, err = common.sh(["timeout", "900", "coqchk", "-silent", "-o", "-Q", ".", "Inf", "Inf.theorems.C09"],
+                                 cwd=common.COQ, timeout=1000)
+    txt = out + err
+    import re
+    m = re.search(r"\* Axioms:\s*(.*?)\n\s*\n", txt, re.S)
+    axioms = m.group(1).strip() if m else "<not reported>"
+    ctx.cov["coqchk"] = {"cmd": "cd /verif/coq && coqchk -silent -o -Q . Inf Inf.theorems.C09", "rc": rc, "axioms": axioms}
+    if rc != 0 or axioms != "<none>":
+        ctx.violation("coqchk does not accept the compiled closure of theorems/C09.vo without axioms",
+                      {"obligation": "coqchk Inf.theorems.C09", "rc": rc, "axioms": axioms, "log_tail": txt[-1500:]}, False)
+    else:
+        ctx.cov["trusted_base"] += ["thorough tier: coqchk re-checked the .vo closure of theorems/C09 (Axioms: <none>)"]
+
+
 def run(ctx):
     common.proof_stage(ctx, "C09", ["extract/c09.vo"])
     runner = common.runner_stage(ctx, "c09")
     if runner is None:
         return
+    if ctx.tier != "quick":
+        coqchk_stage(ctx)
     import logging
     logging.disable(logging.CRITICAL)
     quick = ctx.tier == "quick"
@@ -1048,13 +1071,13 @@ def run(ctx):
 
         cases = [WITNESS]
         cases += gen_shoot_misc(ctx)
-        cases += gen_shoot_grid(ctx, 14000 if quick else 150000)
-        cases += gen_shoot_allolds(ctx, 1 if quick else 6)
-        cases += gen_shoot_random(ctx, 1500 if quick else 20000)
-        cases += gen_wf(ctx, 2 if quick else 12)
-        cases += gen_wf_random(ctx, 1500 if quick else 20000)
+        cases += gen_shoot_grid(ctx, 14000 if quick else 170000)
+        cases += gen_shoot_allolds(ctx, 1 if quick else 10)
+        cases += gen_shoot_random(ctx, 1500 if quick else 40000)
+        cases += gen_wf(ctx, 2 if quick else 24)
+        cases += gen_wf_random(ctx, 1500 if quick else 40000)
         base = [c for c in cases if c["class"] in ("allolds", "wf_small", "random", "wf_random")]
-        pick = ctx.rng.sample(base, min(len(base), 600 if quick else 6000))
+        pick = ctx.rng.sample(base, min(len(base), 600 if quick else 12000))
         wrapped = []
         for i, c in enumerate(pick):
             wrapped.append(to_runmd(ctx, c, "sel" if i % 3 == 0 else "runmd"))
